@@ -168,6 +168,8 @@ def run(ctx, repo):
                     raise AnalysisError('%s: call %s in the decision chain' % (fname, unparse(n)))
         clauses = SP[kind]
         mism = {}
+        # module-level constants the chain may consult (lookup tables), obtained by constant folding
+        modconsts = {k: v for k, v in repo.folded(UKA)[0].items() if isinstance(v, (list, tuple, dict, str, int, float))}
         n_cells = 0
         for a8 in range(0, MAXAGE + 1):
             if kind == 'TF':
@@ -177,7 +179,8 @@ def run(ctx, repo):
             for (x8, x12, xm) in combos:
                 for vets in (True, False):
                     for under in (True, False):
-                        env = {roles['a8']: x8, roles['am']: xm, vets_n: vets, under_n: under}
+                        env = dict(modconsts)
+                        env.update({roles['a8']: x8, roles['am']: xm, vets_n: vets, under_n: under})
                         if kind == 'TF':
                             env[roles['a12']] = x12
                         try:
@@ -188,12 +191,14 @@ def run(ctx, repo):
                             got = r.v
                         except fold._Raise:
                             got = '<raise>'
+                        except (IndexError, KeyError, ZeroDivisionError, TypeError, ValueError) as e:
+                            got = '<raise %s>' % type(e).__name__      # a pure operation of the chain fails on these ages
                         except fold.Unfoldable as e:
                             raise AnalysisError('%s: decision chain not evaluable: %s' % (fname, e))
                         vals = {'a8': x8, 'a12': x12, 'am': xm, 'vets': vets, 'underage': under}
                         want = spec_label(clauses, vals)
                         n_cells += 1
-                        if not isinstance(got, str) or got == '<raise>':
+                        if not isinstance(got, str) or got.startswith('<raise'):
                             mism.setdefault(('R3', repr(got), want), []).append(vals)
                         elif got != want:
                             g = 'V' if got.startswith('V') else got
